@@ -359,21 +359,18 @@ fn format_expression_internal(
     }
 }
 
-/// Determines whether the provided [`Expression`] is a brackets string, i.e. `[[string]]`
-/// We care about this because `[ [[string] ]` is invalid syntax if we remove the whitespace
-pub fn is_brackets_string(expression: &Expression) -> bool {
-    match expression {
-        Expression::String(token_reference) => matches!(
-            token_reference.token_type(),
-            TokenType::StringLiteral {
-                quote_type: StringLiteralQuoteType::Brackets,
-                ..
-            }
-        ),
-        #[cfg(feature = "luau")]
-        Expression::TypeAssertion { expression, .. } => is_brackets_string(expression),
-        _ => false,
-    }
+/// Determines whether the first token of the provided (formatted) [`Expression`] is a brackets string, i.e. `[[string]]`
+/// We care about this because `[ [[string]] ]` is invalid syntax if we remove the whitespace.
+/// The expression should already be formatted: `[ ([[string]]) ]` and `[ [[string]] .. x ]` begin with a brackets string
+/// once redundant parentheses are removed
+pub fn starts_with_brackets_string(expression: &Expression) -> bool {
+    matches!(
+        expression.tokens().next().map(|token| token.token_type()),
+        Some(TokenType::StringLiteral {
+            quote_type: StringLiteralQuoteType::Brackets,
+            ..
+        })
+    )
 }
 
 pub fn process_dot_name(
@@ -442,7 +439,7 @@ pub fn format_index(ctx: &Context, index: &Index, shape: Shape) -> Index {
                     brackets,
                     expression,
                 }
-            } else if is_brackets_string(expression) {
+            } else if starts_with_brackets_string(&format_expression(ctx, expression, shape + 2)) {
                 Index::Brackets {
                     brackets: format_contained_span(ctx, brackets, shape),
                     expression: format_expression(ctx, expression, shape + 2) // 2 = "[ "
